@@ -294,6 +294,25 @@ fn parse_v_model_directive(
         value = attr_value.clone();
     }
 
+    if !matches!(
+        value,
+        Expr::Ident(..)
+            | Expr::Member(..)
+            | Expr::SuperProp(..)
+            | Expr::Paren(..)
+            | Expr::TsAs(..)
+            | Expr::TsNonNull(..)
+            | Expr::TsSatisfies(..)
+            | Expr::TsTypeAssertion(..)
+    ) {
+        HANDLER.with(|handler| {
+            handler.span_err(
+                jsx_attr.span,
+                "`v-model` must be bound to an assignable expression (identifier or member expression).",
+            );
+        });
+    }
+
     Directive::VModel(VModelDirective {
         argument: argument.clone(),
         transformed_argument: if !is_component
